@@ -6,6 +6,7 @@ import (
 	"bytes"
 	"fmt"
 	"io"
+	"net"
 	"net/http"
 	"strings"
 	"sync"
@@ -43,6 +44,53 @@ type Case struct {
 	Release   []int  `json:"release"` // permutation of the indices of parked (in-flight) connections
 	NewDuring bool   `json:"new_during"`
 	NewAfter  bool   `json:"new_after"`
+	// SlowClose: the listener hands out connections whose Close takes 30 ms, so
+	// that "closed" and "handler finished" are distinguishable moments.
+	SlowClose bool `json:"slow_close,omitempty"`
+}
+
+// trackListener records when each accepted connection's Close has completed.
+type trackListener struct {
+	net.Listener
+	delay  time.Duration
+	mu     sync.Mutex
+	closed map[string]bool // by remote address
+}
+
+func (l *trackListener) Accept() (net.Conn, error) {
+	c, err := l.Listener.Accept()
+	if err != nil {
+		return nil, err
+	}
+	return &trackConn{Conn: c, l: l, key: c.RemoteAddr().String()}, nil
+}
+
+func (l *trackListener) snapshot() map[string]bool {
+	l.mu.Lock()
+	defer l.mu.Unlock()
+	out := map[string]bool{}
+	for k, v := range l.closed {
+		out[k] = v
+	}
+	return out
+}
+
+type trackConn struct {
+	net.Conn
+	l    *trackListener
+	key  string
+	once sync.Once
+}
+
+func (c *trackConn) Close() (err error) {
+	c.once.Do(func() {
+		time.Sleep(c.l.delay)
+		err = c.Conn.Close()
+		c.l.mu.Lock()
+		c.l.closed[c.key] = true
+		c.l.mu.Unlock()
+	})
+	return err
 }
 
 var inflight = map[string]bool{"reqmod": true, "roundtrip": true, "resmod": true, "writing": true}
@@ -174,8 +222,13 @@ func runOnce(c Case, T time.Duration) (v kit.Verdict) {
 	p.SetRoundTripper(gatedRT{g, p.GetRoundTripper()})
 	p.SetRequestModifier(g)
 	p.SetResponseModifier(g)
-	pr := netkit.Start(p, nil)
+	tl := &trackListener{closed: map[string]bool{}}
+	if c.SlowClose {
+		tl.delay = 30 * time.Millisecond
+	}
+	pr := netkit.Start(p, func(l net.Listener) net.Listener { tl.Listener = l; return tl })
 	closed := make(chan struct{})
+	var closedAtReturn map[string]bool
 	closeStarted := false
 	defer func() {
 		// never leave parked goroutines behind
@@ -250,6 +303,7 @@ func runOnce(c Case, T time.Duration) (v kit.Verdict) {
 	closeStarted = true
 	go func() {
 		p.Close()
+		closedAtReturn = tl.snapshot()
 		close(closed)
 	}()
 	if !kit.Eventually(T, p.Closing) {
@@ -341,6 +395,16 @@ func runOnce(c Case, T time.Duration) (v kit.Verdict) {
 	if c.NewAfter {
 		tryNew("after")
 	}
+	// Every connection whose handler had demonstrably started before shutdown
+	// was requested must have been closed by the moment Close() returned.
+	for i, k := range clients {
+		if !(inflight[k.point] || strings.HasSuffix(k.point, "-after")) {
+			continue
+		}
+		if !closedAtReturn[k.cl.Conn.LocalAddr().String()] {
+			v.Addf("C07/shutdown/"+k.point+"/close-returned-before-connection-closed", "Close() returned while connection %d (%s, served by a running handler before shutdown) had not been closed yet", i, k.point)
+		}
+	}
 
 	// idle / mid-head connections: closed, nothing served
 	for i, k := range clients {
@@ -430,6 +494,7 @@ func genCase(t *rapid.T) Case {
 		}
 		c.Conns = append(c.Conns, Conn{Point: pt})
 	}
+	c.SlowClose = rapid.Bool().Draw(t, "slow_close")
 	c.NewDuring = rapid.Bool().Draw(t, "new_during")
 	c.NewAfter = rapid.Bool().Draw(t, "new_after")
 	finish(&c, func(k int) []int {
@@ -471,6 +536,9 @@ func classes(c Case) []string {
 	if c.NewDuring {
 		set["new-connection-during-shutdown"] = true
 	}
+	if c.SlowClose {
+		set["slow-closing-connections"] = true
+	}
 	var out []string
 	for k := range set {
 		out = append(out, k)
@@ -505,7 +573,7 @@ func TestTwoConnectionPlacements(t *testing.T) {
 					continue
 				}
 				for _, rev := range []bool{false, true} {
-					c := Case{Conns: []Conn{{a}, {b}}, NewDuring: true, NewAfter: true}
+					c := Case{Conns: []Conn{{a}, {b}}, NewDuring: true, NewAfter: true, SlowClose: rev}
 					finish(&c, func(k int) []int {
 						o := seq(k)
 						if rev && k == 2 {
